@@ -430,7 +430,8 @@ pub fn shape_doc(kind: u8, n: usize, sel: u16) -> (String, String) {
         33 => {
             // nested groups around an element that can never be laid out, each level with one sibling that can:
             // a failed child is attempted again by every enclosing level
-            let n = 2 + n % 29;
+            // (depths below 19 finish within the first-stage budget; one case in ten is deep enough to show the blow-up)
+            let n = if n % 10 == 0 { 28 } else { 2 + n % 17 };
             let (open, close) = if sel % 2 == 0 { ("<g><rect wh=\"1\"/>", "</g>") } else { ("<g>", "<rect wh=\"1\"/></g>") };
             ("retry.nested-groups", format!("<svg>{}<rect xy=\"#nope|h\" wh=\"1\"/>{}</svg>", open.repeat(n), close.repeat(n)))
         }
